@@ -628,6 +628,322 @@ def c05_betabinom_convolution(i, n, ploidy):
     return go()
 
 
+def c18_partitions_and_probabilities(nseq):
+    """LowPass.partitions_and_probabilities(nseq, ...) for nseq haplotypes (nseq/2 diploid individuals); Numerics.cached_part by contract (for these small
+    sizes the table handed back IS the exhaustive list of genotype multisets {0,1,2}^(nseq/2) with the requested allele count - all and only the
+    configurations), multinomln uninterpreted (log of the multinomial coefficient), exp uninterpreted and positive:
+      'genotype', F = 0:  for every allele count a = 0..nseq, in order: partitions[a] = cached_part(a, nseq/2) and
+                          probability of configuration c = W_c / sum_{c' with the same a} W_c',  W_c = exp(multinomln[c_0, c_1, c_2]) * 2^(number of heterozygotes)
+                          -> each list sums to one (lemma over the closed form);
+      'genotype', F != 0: probabilities[a] = part_inbreeding_probability(partitions[a], F)   (its own contract: C18 part_inbreeding);
+      'allele_frequency': the same for the one requested allele count; an odd nseq and an unknown partition type are refused (ValueError)."""
+    oid = 'C18/LowPass.py:partitions_and_probabilities/nseq%d' % nseq
+    fn = 'dadi/LowPass/LowPass.py::partitions_and_probabilities'
+
+    @guarded(oid, fn)
+    def go():
+        nind = nseq // 2
+        table = {af: [list(c) for c in itertools.combinations_with_replacement((0, 1, 2), nind) if sum(c) == af] for af in range(nseq + 1)}
+        M = uf('multinomln', 3)
+        E = uf('exp')
+        posE = [E(M(z3.RealVal(c.count(0)), z3.RealVal(c.count(1)), z3.RealVal(c.count(2)))) > 0 for af in table for c in table[af]]
+        W = lambda c: E(M(z3.RealVal(c.count(0)), z3.RealVal(c.count(1)), z3.RealVal(c.count(2)))) * (2 ** c.count(1))
+        out = []
+
+        def mk():
+            calls, pip = [], []
+
+            def pol(fr):
+                if fr.qualname == 'cached_part':
+                    def stub(ex_, f_, a, kw):
+                        calls.append(list(a))
+                        x = exact(a[0])
+                        x = int(x) if isinstance(x, (int, Fraction)) else x
+                        return VList([VList(list(c)) for c in table[x]])
+                    return stub
+                if fr.qualname == 'multinomln':
+                    return lambda ex_, f_, a, kw: M(*[to_real(exact(v)) for v in ex_.iterate(a[0])])
+                if fr.qualname == 'part_inbreeding_probability':
+                    def stub2(ex_, f_, a, kw):
+                        pip.append(list(a))
+                        return Tm('part_inbreeding_probability', *a)
+                    return stub2
+                return 'inline' if fr.qualname == 'partitions_and_probabilities' else 'abstract'
+            ex = Executor(policy=pol)
+            return ex, ex.func('dadi/LowPass/LowPass.py', 'partitions_and_probabilities'), calls, pip
+        # --- genotype, F = 0
+        ex, f, calls, pip = mk()
+        paths = ex.run(f, [nseq, 'genotype'], {}, base_pc=posE)
+        if len(paths) != 1 or paths[0].outcome != 'return':
+            return [struct(oid + '.genotype', False, 'expected one returning path: %r' % paths[:2], fn, undecided=True)]
+        parts, probs = ex.iterate(paths[0].value)
+        okc = sorted([float(exact(v)) for v in c] for c in calls) == [[float(af), nseq / 2.0] for af in range(nseq + 1)]
+        out.append(struct(oid + '.genotype.enumeration', bool(okc) and [[list(ex.iterate(c)) for c in ex.iterate(ps)] for ps in ex.iterate(parts)] == [table[af] for af in range(nseq + 1)],
+                          'partitions[a] = cached_part(a, nseq/2) for a = 0..nseq (the list in the order of a): %s' % calls[:4], fn))
+        pl = ex.iterate(probs)
+        for af in range(nseq + 1):
+            row = ex.iterate(pl[af]) if af < len(pl) else []
+            if len(row) != len(table[af]):
+                out.append(struct('%s.genotype.prob[%d]' % (oid, af), False, '%d probabilities for %d configurations' % (len(row), len(table[af])), fn))
+                continue
+            tot = sum((W(c) for c in table[af]), z3.RealVal(0))
+            for k, c in enumerate(table[af]):
+                out.append(prove_eq('%s.genotype.prob[%d][%d]' % (oid, af, k), posE + list(paths[0].pc), row[k], W(c) / tot, fn))
+            out.append(prove_eq('%s.genotype.sum-to-one[%d]' % (oid, af), posE + list(paths[0].pc), sum((to_real(exact(x)) for x in row), z3.RealVal(0)), z3.RealVal(1), fn))
+        # --- genotype, F != 0: delegated per allele count
+        ex, f, calls, pip = mk()
+        Fx = z3.Real('Fx')
+        paths = ex.run(f, [nseq, 'genotype', Fx], {}, base_pc=posE + [Fx > 0, Fx < 1])
+        ok = len(paths) == 1 and paths[0].outcome == 'return'
+        if ok:
+            pr = ex.iterate(ex.iterate(paths[0].value)[1])          # judged on the list handed back, not on the order in which it was computed
+            ok = len(pr) == nseq + 1 and all(isinstance(t, Tm) and t.op == 'part_inbreeding_probability' and len(t.args) == 2 and t.args[1] is Fx
+                                             and [list(ex.iterate(c)) for c in ex.iterate(t.args[0])] == table[af] for af, t in enumerate(pr))
+        out.append(struct(oid + '.genotype.inbreeding-delegated', bool(ok), 'probabilities[a] = part_inbreeding_probability(partitions[a], Fx) for a = 0..nseq: %d calls' % len(pip), fn))
+        # --- allele_frequency
+        for af in (1, nseq // 2, nseq - 1):
+            ex, f, calls, pip = mk()
+            paths = ex.run(f, [nseq, 'allele_frequency'], dict(allele_frequency=af), base_pc=posE)
+            tag = '%s.allele_frequency%d' % (oid, af)
+            if len(paths) != 1 or paths[0].outcome != 'return':
+                out.append(struct(tag, False, 'expected one returning path: %r' % paths[:2], fn, undecided=True))
+                continue
+            parts, probs = ex.iterate(paths[0].value)
+            row = ex.iterate(probs)
+            okp = [list(ex.iterate(c)) for c in ex.iterate(parts)] == table[af] and len(row) == len(table[af])
+            out.append(struct(tag + '.enumeration', bool(okp), 'partitions = cached_part(allele_frequency, nseq/2): %s' % calls[:2], fn))
+            if okp:
+                tot = sum((W(c) for c in table[af]), z3.RealVal(0))
+                for k, c in enumerate(table[af]):
+                    out.append(prove_eq('%s.prob[%d]' % (tag, k), posE + list(paths[0].pc), row[k], W(c) / tot, fn))
+        # --- refusals
+        ex, f, calls, pip = mk()
+        paths = ex.run(f, [nseq + 1, 'allele_frequency'], dict(allele_frequency=1))
+        out.append(struct(oid + '.odd-refused', len(paths) == 1 and paths[0].outcome == 'raise' and paths[0].exc.kind == 'ValueError', 'an odd number of haplotypes is refused: %r' % paths[:1], fn))
+        ex, f, calls, pip = mk()
+        paths = ex.run(f, [nseq, 'genotypes'], {})
+        out.append(struct(oid + '.unknown-type-refused', len(paths) == 1 and paths[0].outcome == 'raise' and paths[0].exc.kind == 'ValueError', 'an unknown partition type is refused: %r' % paths[:1], fn))
+        return out
+    return go()
+
+
+def c18_precalc_roles(P):
+    """LowPass.low_cov_precalc_GATK_multisample_GATK_multisample for P populations, every helper by contract (opaque results), analytic regime (no entry selected
+    for simulation): population i's own coverage distribution, sequenced size, subsample size and inbreeding coefficient reach each helper -
+      no-call factor i = probability_of_no_call_1D_GATK_multisample(cov_i, nseq_i, Fx_i), combined by outer products in population order;
+      prob_enough = product over i of probability_enough_individuals_covered(cov_i, nseq_i, nsub_i);
+      proj_mats[i] = prob_enough * projection_matrix(nseq_i, nsub_i, Fx_i);   heterr_mats[i] = calling_error_matrix(cov_i, nsub_i, Fx_i);
+      the simulation switch compares that no-call probability with sim_threshold (simulate where it is larger; strictness at equality is not part of the contract)."""
+    oid = 'C18/LowPass.py:low_cov_precalc_GATK_multisample_GATK_multisample/roles.%dpop' % P
+    fn = 'dadi/LowPass/LowPass.py::low_cov_precalc_GATK_multisample_GATK_multisample'
+
+    @guarded(oid, fn)
+    def go():
+        cov = VDict()
+        for i in range(P):
+            cov.d['pop%d' % i] = Tm('cov%d' % i)
+        nseq = VList([z3.Int('nseq%d' % i) for i in range(P)])
+        nsub = VList([z3.Int('nsub%d' % i) for i in range(P)])
+        Fx = VList([z3.Real('Fx%d' % i) for i in range(P)])
+        thr = z3.Real('sim_threshold')
+        seen = {}
+
+        def ah(ex_, fref, a, kw, ctx):
+            nm = vrepr(fref)
+            if isinstance(fref, FuncRef) and fref.qualname in ('probability_of_no_call_1D_GATK_multisample', 'probability_enough_individuals_covered', 'projection_matrix', 'calling_error_matrix'):
+                t = Tm(fref.qualname, *a)
+                seen.setdefault(fref.qualname, []).append(list(a))
+                return t
+            if 'multiply' in nm and 'outer' in nm:
+                return Tm('outer', *a)
+            if 'argwhere' in nm:
+                seen['argwhere'] = list(a)
+                return VList([], 'ndarray')
+            if nm.endswith('numpy.prod') or 'numpy.prod' in nm:
+                return Tm('prod', *a)
+            return NotImplemented
+        def gh(ex_, obj, name, ctx):
+            if name == 'outer':          # numpy.multiply.outer (documented: all pairwise products, shape = a.shape + b.shape), kept opaque
+                return PyFn(lambda a, b: Tm('outer', a, b), 'numpy.multiply.outer')
+            return NotImplemented
+        ex = Executor(getattr_hook=gh)
+        ex.abstract_hook = ah
+        f = ex.func('dadi/LowPass/LowPass.py', 'low_cov_precalc_GATK_multisample_GATK_multisample')
+        paths = ex.run(f, [nsub, nseq, cov, thr, Fx], {})
+        if len(paths) != 1 or paths[0].outcome != 'return':
+            return [struct(oid, False, 'expected one returning path: %r' % paths[:2], fn, undecided=True)]
+        pn, use_sim, proj, het, sims = ex.iterate(paths[0].value)
+        out = []
+        same = lambda a, b: vrepr(a) == vrepr(b)
+        nc = seen.get('probability_of_no_call_1D_GATK_multisample', [])
+        ok = len(nc) == P and all(same(a[0], cov.d['pop%d' % i]) and same(a[1], nseq.items[i]) and same(a[2], Fx.items[i]) for i, a in enumerate(nc))
+        want = 1
+        for i in range(P):
+            want = Tm('outer', want, Tm('probability_of_no_call_1D_GATK_multisample', Tm('cov%d' % i), nseq.items[i], Fx.items[i]))
+        out.append(struct(oid + '.no-call', bool(ok) and vrepr(pn) == vrepr(want), 'no-call array = outer product over populations, in order, of no_call(cov_i, nseq_i, Fx_i): %s' % vrepr(pn)[:200], fn))
+        out.append(struct(oid + '.switch', vrepr(use_sim) in ('cmp:Gt(%s, sim_threshold)' % vrepr(want), 'cmp:GtE(%s, sim_threshold)' % vrepr(want), 'cmp:Lt(sim_threshold, %s)' % vrepr(want), 'cmp:LtE(sim_threshold, %s)' % vrepr(want)) and 'argwhere' in seen and seen['argwhere'][0] is use_sim,
+                          'entries are simulated where the no-call probability exceeds (or reaches) sim_threshold: %s' % vrepr(use_sim)[:160], fn))
+        en = seen.get('probability_enough_individuals_covered', [])
+        ok = len(en) == P and all(same(a[0], cov.d['pop%d' % i]) and same(a[1], nseq.items[i]) and same(a[2], nsub.items[i]) for i, a in enumerate(en))
+        out.append(struct(oid + '.enough-covered', bool(ok), 'enough_covered(cov_i, nseq_i, nsub_i) per population: %s' % vrepr(en)[:200], fn))
+        def factors(t):
+            if isinstance(t, Tm) and t.op == 'op:Mult':
+                return [f_ for a_ in t.args for f_ in factors(a_)]
+            if isinstance(t, Tm) and t.op == 'prod' and len(t.args) == 1 and isinstance(t.args[0], (VList, list, tuple)):
+                return [f_ for a_ in ex.iterate(t.args[0]) for f_ in factors(a_)]
+            return [] if (not isinstance(t, (Tm, VList)) and exact(t) == 1) else [vrepr(t)]
+        pl = ex.iterate(proj)
+        en_terms = ['probability_enough_individuals_covered(cov%d, nseq%d, nsub%d)' % (i, i, i) for i in range(P)]
+        ok = len(pl) == P and all(sorted(factors(t)) == sorted(en_terms + ['projection_matrix(nseq%d, nsub%d, Fx%d)' % (i, i, i)]) for i, t in enumerate(pl))
+        out.append(struct(oid + '.projection', bool(ok), 'proj_mats[i] = (product over populations of enough_covered) * projection_matrix(nseq_i, nsub_i, Fx_i): %s' % [sorted(factors(t)) for t in pl][:2], fn))
+        hl = ex.iterate(het)
+        ok = len(hl) == P and all(vrepr(t) == 'calling_error_matrix(cov%d, nsub%d, Fx%d)' % (i, i, i) for i, t in enumerate(hl))
+        out.append(struct(oid + '.miscall', bool(ok), 'heterr_mats[i] = calling_error_matrix(cov_i, nsub_i, Fx_i): %s' % vrepr(hl)[:200], fn))
+        return out
+    return go()
+
+
+def c18_lowpass_wrapper():
+    """LowPass.make_low_pass_func_GATK_multisample(func, cov_dist, pop_ids, nseq, nsub, ...): refusal of Fx = 1; the wrapped function evaluates the model
+    with the *sequenced* sample sizes in place of its second argument (other arguments and keywords passed through), refuses a folded model, takes
+    the transformation matrices from the precalculation with (nsub, nseq, cov_dist, sim_threshold, Fx, nsim) in their roles, and - one population, every
+    entry symbolic, precalculated matrices by contract - returns
+        output[k] = sum_j ( sum_i model[i] (1 - use_sim[i]) (1 - nocall[i]) proj[i][j] ) heterr[j][k]  +  sum_{af simulated} model[af] sim[af][k]
+    with the model's folded flag and extrap_x."""
+    oid = 'C18/LowPass.py:make_low_pass_func_GATK_multisample'
+    fn = 'dadi/LowPass/LowPass.py::make_low_pass_func_GATK_multisample'
+
+    @guarded(oid, fn)
+    def go():
+        out = []
+        nseq_n, nsub_n = 3, 2          # entries of the model spectrum: nseq+1 = 4; of the output: nsub+1 = 3
+        m = reals('model', nseq_n + 1)
+        nocall = reals('nocall', nseq_n + 1)
+        proj = [[z3.Real('proj%d_%d' % (i, j)) for j in range(nsub_n + 1)] for i in range(nseq_n + 1)]
+        het = [[z3.Real('het%d_%d' % (j, k)) for k in range(nsub_n + 1)] for j in range(nsub_n + 1)]
+        sim1 = reals('sim_af1', nsub_n + 1)
+        use_sim = [False, True, False, False]
+        pre_calls, model_calls = [], []
+        extrap = Tm('extrap_x')
+
+        def pol(fr):
+            if fr.qualname == 'low_cov_precalc_GATK_multisample_GATK_multisample':
+                def stub(ex_, f_, a, kw):
+                    pre_calls.append((list(a), dict(kw)))
+                    sims = VDict()
+                    sims.d[(1,)] = VList(list(sim1), 'ndarray')
+                    return (VList(list(nocall), 'ndarray'), VList(list(use_sim), 'ndarray'), VList([VList([VList(list(r), 'ndarray') for r in proj], 'ndarray')]),
+                            VList([VList([VList(list(r), 'ndarray') for r in het], 'ndarray')]), sims)
+                return stub
+            return 'inline' if fr.qualname in ('make_low_pass_func_GATK_multisample',) else 'abstract'
+        nseq, nsub = VList([nseq_n]), VList([nsub_n])
+        cov, thr, Fx, nsim = Tm('cov_dist'), z3.Real('sim_threshold'), VList([z3.Real('Fx0')]), z3.Int('nsim')
+        folded = [False]
+
+        def model_func(params, ns, pts, **kw):
+            model_calls.append(([params, ns, pts], dict(kw)))
+            v = VList(list(m), 'ndarray')
+            v.attrs = dict(folded=folded[0], extrap_x=extrap)
+            return v
+        func = PyFn(model_func, 'func')
+        func.attrs = dict(__name__='model', __doc__='doc') if hasattr(func, 'attrs') else None
+        ex = Executor(policy=pol)
+        mk = ex.func('dadi/LowPass/LowPass.py', 'make_low_pass_func_GATK_multisample')
+        params, pts = Tm('params'), Tm('pts')
+
+        def thunk(e):
+            lf = e.call(mk, [func, cov, VList(['A']), nseq, nsub], dict(sim_threshold=thr, Fx=Fx, nsim=nsim))
+            r1 = e.call(lf, [params, VList([7]), pts], dict(extra=5))
+            r2 = e.call(lf, [params, VList([7]), pts], {})
+            return r1, r2
+        paths = ex.explore(thunk, base_pc=[Fx.items[0] != 1])
+        rets = [p for p in paths if p.outcome == 'return']
+        if len(rets) != 1 or len(paths) != 1:
+            return [struct(oid, False, 'expected one returning path: %r' % paths[:3], fn, undecided=True)]
+        r1, r2 = rets[0].value
+        a0, k0 = model_calls[0] if model_calls else ([None] * 3, {})
+        ok = len(model_calls) == 2 and a0[0] is params and a0[1] is nseq and a0[2] is pts and k0 == dict(extra=5)
+        out.append(struct(oid + '.model-call', bool(ok), 'func(params, nseq, pts, **kwargs): the sequenced sample sizes replace the second argument: %s' % vrepr(model_calls[:1])[:200], fn))
+        sig = ['nsub', 'nseq', 'cov_dist', 'sim_threshold', 'Fx', 'nsim']
+        ok = len(pre_calls) >= 1
+        for pa, pk in pre_calls:
+            b = dict(zip(sig, pa)); b.update(pk)
+            ok = ok and b.get('nsub') is nsub and b.get('nseq') is nseq and b.get('cov_dist') is cov and b.get('sim_threshold') is thr and b.get('Fx') is Fx and b.get('nsim') is nsim
+        out.append(struct(oid + '.precalc-roles', bool(ok), 'the matrices come from low_cov_precalc(nsub, nseq, cov_dist, sim_threshold, Fx, nsim=nsim), every argument in its role (%d call(s) for two evaluations; caching is not part of the contract)' % len(pre_calls), fn))
+        res = ex.iterate(r1)
+        if len(res) != nsub_n + 1:
+            out.append(struct(oid + '.value', False, 'result has %d entries' % len(res), fn, undecided=True))
+        else:
+            for k in range(nsub_n + 1):
+                want = sum((sum((m[i] * (0 if use_sim[i] else 1) * (1 - nocall[i]) * proj[i][j] for i in range(nseq_n + 1)), z3.RealVal(0)) * het[j][k] for j in range(nsub_n + 1)), z3.RealVal(0)) + m[1] * sim1[k]
+                out.append(prove_eq('%s.value[%d]' % (oid, k), list(rets[0].pc), res[k], want, fn))
+        at = getattr(r1, 'attrs', {}) or {}
+        out.append(struct(oid + '.flags', at.get('folded') is False and at.get('extrap_x') is extrap, 'folded flag and extrap_x of the model carried: %s' % {k_: vrepr(v) for k_, v in at.items()}, fn))
+        # refusals
+        folded[0] = True
+        paths = ex.explore(lambda e: e.call(e.call(mk, [func, cov, VList(['A']), nseq, nsub], dict(Fx=Fx)), [params, VList([7]), pts], {}), base_pc=[Fx.items[0] != 1])
+        out.append(struct(oid + '.folded-refused', len(paths) == 1 and paths[0].outcome == 'raise' and paths[0].exc.kind == 'ValueError', 'a folded model spectrum is refused: %r' % paths[:1], fn))
+        folded[0] = False
+        paths = ex.explore(lambda e: e.call(mk, [func, cov, VList(['A']), nseq, nsub], dict(Fx=VList([1]))))
+        out.append(struct(oid + '.F1-refused', len(paths) == 1 and paths[0].outcome == 'raise' and paths[0].exc.kind == 'ValueError', 'Fx = 1 is refused: %r' % paths[:1], fn))
+        return out
+    return go()
+
+
+def c18_lowpass_wrapper_2pop():
+    """The wrapped function of make_low_pass_func_GATK_multisample on two populations (model 2 x 3, output 2 x 2, every entry symbolic; the precalculated
+    arrays by contract; one entry simulated): each axis is transformed by *its own* projection and miscall matrices,
+        output[a,b] = sum_{i,j} model[i,j] (1 - use_sim[i,j]) (1 - nocall[i,j]) (P1 H1)[i,a] (P2 H2)[j,b]  +  sum_{(i,j) simulated} model[i,j] sim_(i,j)[a,b]."""
+    oid = 'C18/LowPass.py:make_low_pass_func_GATK_multisample/2pop'
+    fn = 'dadi/LowPass/LowPass.py::make_low_pass_func_GATK_multisample'
+
+    @guarded(oid, fn)
+    def go():
+        shp_in, shp_out = (2, 3), (2, 2)
+        m = [[z3.Real('model%d_%d' % (i, j)) for j in range(3)] for i in range(2)]
+        nc = [[z3.Real('nocall%d_%d' % (i, j)) for j in range(3)] for i in range(2)]
+        us = [[False, False, False], [False, False, True]]
+        P = [[[z3.Real('proj%d_%d_%d' % (k, i, a)) for a in range(shp_out[k])] for i in range(shp_in[k])] for k in range(2)]
+        H = [[[z3.Real('het%d_%d_%d' % (k, a, b)) for b in range(shp_out[k])] for a in range(shp_out[k])] for k in range(2)]
+        sim = [[z3.Real('sim%d_%d' % (a, b)) for b in range(2)] for a in range(2)]
+        arr2 = lambda rows: VList([VList(list(r), 'ndarray') for r in rows], 'ndarray')
+
+        def pol(fr):
+            if fr.qualname == 'low_cov_precalc_GATK_multisample_GATK_multisample':
+                def stub(ex_, f_, a, kw):
+                    sims = VDict()
+                    sims.d[(1, 2)] = arr2(sim)
+                    return (arr2(nc), arr2(us), VList([arr2(P[0]), arr2(P[1])]), VList([arr2(H[0]), arr2(H[1])]), sims)
+                return stub
+            return 'inline' if fr.qualname == 'make_low_pass_func_GATK_multisample' else 'abstract'
+
+        def model_func(params, ns, pts):
+            v = arr2(m)
+            v.attrs = dict(folded=False, extrap_x=None)
+            return v
+        ex = Executor(policy=pol)
+        mk = ex.func('dadi/LowPass/LowPass.py', 'make_low_pass_func_GATK_multisample')
+        paths = ex.explore(lambda e: e.call(e.call(mk, [PyFn(model_func, 'func'), Tm('cov'), VList(['A', 'B']), VList([1, 2]), VList([1, 1])], {}), [Tm('params'), VList([5, 5]), Tm('pts')], {}))
+        if len(paths) == 1 and paths[0].outcome == 'raise':
+            return [struct(oid + '.returns', False, 'raises on a valid request: %r' % paths[0], fn)]
+        if len(paths) != 1 or paths[0].outcome != 'return':
+            return [struct(oid, False, 'expected one returning path: %r' % paths[:2], fn, undecided=True)]
+        res = paths[0].value
+        out = []
+        PH = [[[sum((P[k][i][c] * H[k][c][a] for c in range(shp_out[k])), z3.RealVal(0)) for a in range(shp_out[k])] for i in range(shp_in[k])] for k in range(2)]
+        for a in range(2):
+            for b in range(2):
+                want = sum((m[i][j] * (0 if us[i][j] else 1) * (1 - nc[i][j]) * PH[0][i][a] * PH[1][j][b] for i in range(2) for j in range(3)), z3.RealVal(0)) + m[1][2] * sim[a][b]
+                try:
+                    got = exact(exact(res.items[a]).items[b])
+                except Exception:
+                    out.append(struct('%s.value[%d,%d]' % (oid, a, b), False, 'result is not 2 x 2: %s' % vrepr(res)[:200], fn, undecided=True))
+                    continue
+                out.append(prove_eq('%s.value[%d,%d]' % (oid, a, b), list(paths[0].pc), got, want, fn))
+        return out
+    return go()
+
+
 # ---------------------------------------------------------------- C20: frame of the integrators (syntactic dataflow)
 def c20_integrator_frame():
     oid = 'C20/Integration.py'
